@@ -1,2 +1,259 @@
-(** C14 -- Raw layout survives the trip through the protobuf schema (in progress). *)
-From L21 Require Import Raw.RawData Raw.RawProto Raw.RawProtoSpec Raw.RawProto_proofs.
+(** C14 -- Raw layout survives the trip through the protobuf schema.
+    Property theorems only; proofs are in Raw/RawProto*_proofs.v.
+
+    Model (Raw/RawProto.v): [to_proto_with xrot ord L] is `Library::to_proto`
+    (ProtoExporter + `DepOrder`), [from_proto ly0 P] is `Library::from_proto` (ProtoImporter) with
+    [ly0] the `layers` argument ([[]] for `None`).  [xrot] is the rotation written by
+    `export_instance`: [export_rotation] after the repair (the angle is written as it is,
+    `None => 0`, a whole number of degrees that fits an `i32` => that number, anything else =>
+    error), [export_rotation_orig] the code as found (constant 0); [to_proto] / [to_proto_orig]
+    are the two with the code's own iteration order [sorted_by_layer].  [ord] is the order in
+    which the entries of a `HashMap<LayerKey, Vec<Shape>>` are visited; statements about the
+    exporter hold for EVERY [ord] that returns a permutation of the entries ([perm_oracle]).
+    `DepOrder` is the model of property C17 ([DepOrderFixed.order_checked]); its properties are
+    the C17 theorems, not re-proved here.
+
+    Specification (Raw/RawProtoSpec.v, written from the property statement and raw.proto):
+    [raw_content L] / [proto_content P] map both formats to what a library SAYS: name, units,
+    cells by name with layout and abstract, instances with name, target cell NAME, location,
+    reflection and rotation, annotations, shapes with points, width, net and layer / purpose
+    NUMBERS.  The rotation is the whole number of degrees: raw `Some(a)` says the integer a is
+    equal to, a message field r says r; no angle, `Some(0.0)` and `Some(-0.0)` all say 0, so a
+    library that had `Some(0.0)` and comes back with `None` has kept its rotation.
+    [raw_equiv_grouped L L'] : both say something and say the same, comparing cells as a
+    multiset, the shapes of a layout as a list after the documented grouping [spec_group] (by
+    first-seen (layer, purpose), then rectangles / polygons / paths), rectangles up to the
+    choice of the two stored corners, the layers of a port or of the blockages as a multiset. *)
+From Coq Require Import ZArith NArith List String Bool Permutation.
+From L21 Require Import Base.F64 Base.Outcome Raw.RawData Raw.RawProto Raw.RawProtoSpec Raw.RawProto_proofs.
+Import ListNotations.
+Local Open Scope Z_scope.
+
+(** ** (1) raw -> proto -> raw
+    [proto_exportable L] (Raw/RawProtoSpec.v) is "L is in the schema's supported subset": units
+    other than Pico; cell names distinct (the schema refers to cells by name); no cell reaches
+    itself through instances; instances point into the library and their angle is a whole
+    number of degrees that fits an `i32`; every element's and every abstract entry's layer and
+    purpose resolve to `i16` numbers, with distinct layer numbers inside one port / the blockages;
+    coordinates in `i64`, rectangle sides at most `i64::MAX`, path widths in `0..=i64::MAX`.
+    For every iteration order of the hash maps, every such library and every well-formed
+    layer table handed to the importer: export succeeds, import of the result succeeds, and
+    the library that comes back says the same as the original. *)
+Theorem C14_raw_proto_raw :
+  forall ord L ly0, perm_oracle ord -> proto_exportable L -> layers_wf ly0 ->
+    exists P L', to_proto_with export_rotation ord L = Ok P /\ from_proto ly0 P = Ok L' /\ raw_equiv_grouped L L'.
+Proof. exact raw_proto_raw. Qed.
+
+(** the same for the code's own order (`sorted_by_layer`, which visits every entry once) *)
+Theorem C14_raw_proto_raw_code :
+  forall L ly0, proto_exportable L -> layers_wf ly0 ->
+    exists P L', to_proto L = Ok P /\ from_proto ly0 P = Ok L' /\ raw_equiv_grouped L L'.
+Proof. exact raw_proto_raw_code. Qed.
+
+Theorem C14_sorted_by_layer_perm : perm_oracle sorted_by_layer.
+Proof. exact sorted_by_layer_perm. Qed.
+
+(** The two halves of (1), each stronger than what (1) uses.
+    The importer keeps the content of EVERY message it accepts (not only exported ones), in
+    message order, provided the layer numbers inside one port / the blockages are distinct (a
+    second entry for a layer replaces the first in the hash map). *)
+Theorem C14_import_content :
+  forall ly0 P L, layers_wf ly0 -> abs_layers_distinct P -> proto_typed P -> from_proto ly0 P = Ok L ->
+    raw_content L = proto_content P /\ layers_wf (lib_layers L) /\ ly_ext ly0 (lib_layers L).
+Proof. exact import_content. Qed.
+
+(** The exporter writes the content, grouped as [spec_group] says, and a message that has
+    everything the importer needs. *)
+Theorem C14_export_content :
+  forall ord L, perm_oracle ord -> proto_exportable L ->
+    exists P C C', to_proto_with export_rotation ord L = Ok P /\ raw_content L = Some C /\ proto_content P = Some C' /\
+      content_equiv_grouped C C' /\ Forall pcell_imp (pb_cells P) /\ abs_layers_distinct P /\ proto_typed P /\
+      units_content (pb_units P) <> None.
+Proof. exact export_content. Qed.
+
+(** the documented grouping applied twice is the grouping applied once (so "compare after
+    grouping" is a well-defined comparison) *)
+Theorem C14_spec_group_idempotent : forall es, spec_group (spec_group es) = spec_group es.
+Proof. exact spec_group_idem. Qed.
+
+(** ** (2) proto -> raw -> proto
+    [canonical ly0 P] (Raw/RawProtoSpec.v) singles out one encoding among the redundant ones
+    the schema allows; each clause is needed for the SAME message to come back:
+    - `author`, `interface`, `module` absent (the raw model has no place for them);
+    - in a layout: every LayerShapes has a layer with `i16` numbers, is non-empty, and no two
+      have the same (layer, purpose) (the exporter writes one per pair, and none when empty);
+      rectangles have a corner and non-negative width / height (the exporter writes the
+      lower-left corner), path widths are non-negative;
+    - in an abstract: an outline without net; shapes without nets (the raw abstract has none);
+      the layer is one of [ly0] and the purpose number is the one [ly0] registers for pin /
+      obstruction on it (the raw abstract stores only the layer key); the layer lists of a
+      port and of the blockages in the order of the layer table (the exporter writes a hash
+      map's entries in ascending key order).
+    No restriction on rotations: 360, -90, 720 come back as they are.
+    [proto_typed P] is the type invariant "`rotation_clockwise_degrees` is an `i32`".
+    [deps_first P]: cells listed before their users. *)
+Theorem C14_proto_raw_proto :
+  forall ly0 P L, layers_wf ly0 -> proto_typed P -> deps_first P -> canonical ly0 P ->
+    from_proto ly0 P = Ok L -> to_proto L = Ok P.
+Proof. exact proto_raw_proto. Qed.
+
+(** ... and such a message IS imported when it has every field the importer needs
+    ([pcell_imp]: locations, layers with `i16` numbers, corners that do not overflow,
+    non-negative path widths, outlines): never an error, never a panic. *)
+Theorem C14_import_total :
+  forall ly0 P, units_content (pb_units P) <> None -> deps_first P -> Forall pcell_imp (pb_cells P) ->
+    exists L, from_proto ly0 P = Ok L.
+Proof. exact import_total. Qed.
+
+(** ** (3) exported libraries list a cell after the cells it instantiates -- for either
+    rotation code, every iteration order and EVERY library for which export returns a message
+    (no [proto_exportable] needed); hence import after export never fails on an undefined
+    reference (whatever else may make it fail, e.g. layer numbers outside `i16`). *)
+Theorem C14_export_deps_first :
+  forall xrot ord L P, to_proto_with xrot ord L = Ok P -> deps_first P.
+Proof. exact export_deps_first. Qed.
+
+Theorem C14_import_no_undefined :
+  forall ly0 P e, deps_first P -> from_proto ly0 P = Err e -> e <> undefined_msg.
+Proof. exact import_no_undefined. Qed.
+
+Theorem C14_export_import_no_undefined :
+  forall xrot ord L P ly0 e, to_proto_with xrot ord L = Ok P -> from_proto ly0 P = Err e -> e <> undefined_msg.
+Proof. intros xrot ord L P ly0 e H. apply import_no_undefined. exact (export_deps_first _ _ _ _ H). Qed.
+
+(** [undefined_msg] is the importer's error for an unknown cell name; it does occur on a
+    message that is not deps-first *)
+Theorem C14_undefined_exists :
+  from_proto [] (mkplib "" 0 [mkpcell "a" false None (Some (mkplayout "a" [] [mkpinst "i" (Some (Some (RefLocal "b"))) (Some (mkpp 0 0)) false 0] []))] false)
+  = Err undefined_msg.
+Proof. exact import_undefined_exists. Qed.
+
+(** the order of the exported cells, in full: each cell exactly once, each after its targets
+    (from the C17 theorem for `DepOrder`) *)
+Theorem C14_dep_order_sound :
+  forall cells order, dep_order cells = Ok order ->
+    NoDup order /\ (forall i, (i < List.length cells)%nat -> In i order) /\
+    (closed cells -> forall i, In i order -> (i < List.length cells)%nat) /\
+    (forall l1 x l2, order = l1 ++ x :: l2 -> forall d, In d (deps_of cells x) -> In d l1).
+Proof. exact dep_order_sound. Qed.
+
+(** ** (4) What the schema cannot express.
+    The rotation written is exactly the rotation content; an angle that is not a whole number
+    of degrees in the `i32` range (fractional, NaN, infinite, 2^31 ...) is an error. *)
+Theorem C14_export_rotation_exact : forall a v, export_rotation a = Ok v <-> angle_content a = Some v.
+Proof. exact export_rotation_exact. Qed.
+Theorem C14_export_rotation_error : forall a, angle_content a = None -> exists e, export_rotation a = Err e.
+Proof. exact export_rotation_error. Qed.
+(** `f64::from(i32)` read back as a whole number is the `i32` (the importer's side) *)
+Theorem C14_f64_int_of_int : forall z, i32_ok z -> z <> 0 -> f64_int_value (f64_of_int z) = Some z.
+Proof. exact f64_int_of_int. Qed.
+
+(** A library in which a cell reaches itself is refused with an error: no panic, no
+    unbounded recursion (C17's repaired `DepOrder`). *)
+Theorem C14_export_cyclic_error :
+  forall xrot ord L, lib_units L <> Pico -> closed (lib_cells L) -> ~ acyclic (lib_cells L) ->
+    exists e, to_proto_with xrot ord L = Err e.
+Proof. exact export_cyclic_error. Qed.
+
+(** OBSERVATION (outside the property's space: the schema has no such unit): `Units::Pico` makes
+    the real exporter PANIC (`unimplemented!()`), it is not an error return. *)
+Theorem C14_export_pico_panics : forall xrot ord L, lib_units L = Pico -> to_proto_with xrot ord L = Panic.
+Proof. exact export_pico_panics. Qed.
+
+(** ** (5) The exporter as found (`rotation_clockwise_degrees: 0`) does not have the property.
+    Closed witness [Lw]: cell "b" instantiates cell "a" reflected and rotated by 90 degrees;
+    the message says rotation 0, the library that comes back has no angle. *)
+Theorem C14_raw_proto_raw_orig_witness :
+  proto_exportable Lw /\ layers_wf [] /\
+  exists P L', to_proto_orig Lw = Ok P /\ from_proto [] P = Ok L' /\ ~ raw_equiv_grouped Lw L'.
+Proof. exact raw_proto_raw_orig_witness. Qed.
+
+Theorem C14_raw_proto_raw_orig_refuted :
+  ~ (forall ord L ly0, perm_oracle ord -> proto_exportable L -> layers_wf ly0 ->
+       exists P L', to_proto_with export_rotation_orig ord L = Ok P /\ from_proto ly0 P = Ok L' /\ raw_equiv_grouped L L').
+Proof. exact raw_proto_raw_orig_refuted. Qed.
+
+(** and from the message side: the canonical message [Pw] with rotation 90 comes back with 0 *)
+Theorem C14_proto_raw_proto_orig_witness :
+  layers_wf [] /\ proto_typed Pw /\ deps_first Pw /\ canonical [] Pw /\
+  exists L P', from_proto [] Pw = Ok L /\ to_proto_orig L = Ok P' /\ P' <> Pw.
+Proof. exact proto_raw_proto_orig_witness. Qed.
+
+Theorem C14_proto_raw_proto_orig_refuted :
+  ~ (forall ly0 P L, layers_wf ly0 -> proto_typed P -> deps_first P -> canonical ly0 P ->
+       from_proto ly0 P = Ok L -> to_proto_orig L = Ok P).
+Proof. exact proto_raw_proto_orig_refuted. Qed.
+
+(** ** Non-vacuity.
+    [L_nv]: users listed first, a rectangle with swapped corners, nets, three layer/purpose
+    pairs interleaved, a reflected instance rotated by 90 degrees, an annotation, an abstract
+    with a two-layer port and blockages.  It meets every hypothesis of (1); the exporter
+    reorders the cells, groups the shapes and writes rotation 90; the library comes back. *)
+Example C14_raw_proto_raw_nonvacuous :
+  proto_exportable L_nv /\ layers_wf ly_nv /\ layers_wf [] /\
+  (exists P, to_proto L_nv = Ok P /\ map pc_name (pb_cells P) = ["a"; "b"]%string /\
+     (exists c l, nth_error (pb_cells P) 1 = Some c /\ pc_layout c = Some l /\ map pi_rot (ply_insts l) = [90; 0]) /\
+     (exists c l, nth_error (pb_cells P) 0 = Some c /\ pc_layout c = Some l /\
+        map (fun ls => (pls_lp ls, List.length (pls_rects ls), List.length (pls_polys ls), List.length (pls_paths ls))) (ply_shapes l)
+        = [(Some (5, 0), 1%nat, 1%nat, 0%nat); (Some (7, 0), 1%nat, 0%nat, 1%nat)]) /\
+     exists L', from_proto [] P = Ok L' /\ map c_name (lib_cells L') = ["a"; "b"]%string).
+Proof.
+  split; [exact L_nv_exportable|]. split; [exact ly_nv_wf|]. split; [split; [constructor|intros l []]|].
+  eexists. split; [vm_compute; reflexivity|]. split; [reflexivity|]. split; [|split].
+  - eexists. eexists. split; [reflexivity|]. split; reflexivity.
+  - eexists. eexists. split; [reflexivity|]. split; reflexivity.
+  - eexists. split; [vm_compute; reflexivity|]. reflexivity.
+Qed.
+
+(** [P_nv] meets every hypothesis of (2) with the layer table [ly_nv]: two LayerShapes in a
+    layout (one on a layer the table does not have yet), an abstract with a two-layer port and
+    blockages, rotations 90, -90, 720, 0; it is imported, and exported as itself. *)
+Example C14_proto_raw_proto_nonvacuous :
+  layers_wf ly_nv /\ proto_typed P_nv /\ deps_first P_nv /\ canonical ly_nv P_nv /\
+  exists L, from_proto ly_nv P_nv = Ok L /\ to_proto L = Ok P_nv /\ List.length (lib_layers L) = 3%nat.
+Proof.
+  split; [exact ly_nv_wf|]. destruct P_nv_ok as [A [B C]]. repeat (split; auto).
+  eexists. split; [vm_compute; reflexivity|]. split; vm_compute; reflexivity.
+Qed.
+
+Check C14_raw_proto_raw :
+  forall ord L ly0, perm_oracle ord -> proto_exportable L -> layers_wf ly0 ->
+    exists P L', to_proto_with export_rotation ord L = Ok P /\ from_proto ly0 P = Ok L' /\ raw_equiv_grouped L L'.
+Check C14_proto_raw_proto :
+  forall ly0 P L, layers_wf ly0 -> proto_typed P -> deps_first P -> canonical ly0 P ->
+    from_proto ly0 P = Ok L -> to_proto L = Ok P.
+Check C14_export_deps_first :
+  forall xrot ord L P, to_proto_with xrot ord L = Ok P -> deps_first P.
+Check C14_export_import_no_undefined :
+  forall xrot ord L P ly0 e, to_proto_with xrot ord L = Ok P -> from_proto ly0 P = Err e -> e <> undefined_msg.
+Check C14_import_content :
+  forall ly0 P L, layers_wf ly0 -> abs_layers_distinct P -> proto_typed P -> from_proto ly0 P = Ok L ->
+    raw_content L = proto_content P /\ layers_wf (lib_layers L) /\ ly_ext ly0 (lib_layers L).
+Check C14_raw_proto_raw_orig_refuted :
+  ~ (forall ord L ly0, perm_oracle ord -> proto_exportable L -> layers_wf ly0 ->
+       exists P L', to_proto_with export_rotation_orig ord L = Ok P /\ from_proto ly0 P = Ok L' /\ raw_equiv_grouped L L').
+
+Print Assumptions C14_raw_proto_raw.
+Print Assumptions C14_raw_proto_raw_code.
+Print Assumptions C14_sorted_by_layer_perm.
+Print Assumptions C14_import_content.
+Print Assumptions C14_export_content.
+Print Assumptions C14_spec_group_idempotent.
+Print Assumptions C14_proto_raw_proto.
+Print Assumptions C14_import_total.
+Print Assumptions C14_export_deps_first.
+Print Assumptions C14_import_no_undefined.
+Print Assumptions C14_export_import_no_undefined.
+Print Assumptions C14_undefined_exists.
+Print Assumptions C14_dep_order_sound.
+Print Assumptions C14_export_rotation_exact.
+Print Assumptions C14_export_rotation_error.
+Print Assumptions C14_f64_int_of_int.
+Print Assumptions C14_export_cyclic_error.
+Print Assumptions C14_export_pico_panics.
+Print Assumptions C14_raw_proto_raw_orig_witness.
+Print Assumptions C14_raw_proto_raw_orig_refuted.
+Print Assumptions C14_proto_raw_proto_orig_witness.
+Print Assumptions C14_proto_raw_proto_orig_refuted.
+Print Assumptions C14_raw_proto_raw_nonvacuous.
+Print Assumptions C14_proto_raw_proto_nonvacuous.
